@@ -145,10 +145,10 @@ def run(argv, stdin=b'', cwd=None, env=None, timeout=20, preexec=None):
     return Result(p.returncode, out, err, to, time.time() - t0)
 
 
-def run_progress(argv, stdin=b'', cwd=None, env=None, idle=60, total=600, preexec=None):
+def run_progress(argv, stdin=b'', cwd=None, env=None, idle=60, total=600, preexec=None, more=None, more_times=0):
     """like run(), but the verdict on a process that does not end is based on PROGRESS: the editor (hook
     neatvi_verif_progress) writes one byte per executed command to a pipe.  Returns (Result, state, commands) with state
-    'done', 'stuck' (no command finished for `idle` seconds), 'starved' (asleep waiting for more input after the whole stream was consumed) or 'running' (still executing commands after `total` seconds)."""
+    'done', 'stuck' (no command finished for `idle` seconds), 'starved' / 'unresponsive' (asleep waiting for input after the whole stream, and `more` x more_times, was consumed) or 'running' (still executing commands after `total` seconds)."""
     import selectors
     t0 = time.time()
     pr, pw = os.pipe()
@@ -174,14 +174,25 @@ def run_progress(argv, stdin=b'', cwd=None, env=None, idle=60, total=600, preexe
     open_streams = 2
     while open_streams:
         now = time.time()
+        if now - last > 5 and pos >= len(stdin):
+            # asleep in read()/poll() on its input after the whole stream was consumed: the stream ran out inside a text block or a
+            # prompt (every :g/re/a execution reads one).  It is fed `more` (further quit attempts) up to more_times times; an editor
+            # that is still there after that does not react to commands any more.
+            try:
+                sc = open('/proc/%d/syscall' % p.pid).read().split()
+            except OSError:
+                sc = []
+            if sc and sc[0] in ('0', '7', '23', '271'):
+                if more and more_times > 0:
+                    more_times -= 1
+                    stdin = stdin + more
+                    sel.register(p.stdin, selectors.EVENT_WRITE)
+                    last = now
+                    continue
+                state = 'unresponsive' if more else 'starved'
+                break
         if now - last > idle:
             state = 'stuck'
-            try:    # asleep in read()/poll() on its input: the stream ran out inside a text block or a prompt - nothing hangs
-                sc = open('/proc/%d/syscall' % p.pid).read().split()
-                if sc and sc[0] in ('0', '7', '23', '271') and pos >= len(stdin):
-                    state = 'starved'
-            except OSError:
-                pass
             break
         if now - t0 > total:
             state = 'running'
